@@ -40,7 +40,10 @@ import (
 // denied globally, denied for P's overlay range, W's address), HostUpdateNotification from P when I am a lighthouse,
 // static_host_map, calculated_remotes, the remote learned from an inbound handshake, roaming, DNS result sets (stored
 // into hostnamesResults exactly as the resolver goroutine + its onUpdate callback do), HostPunchNotification, and the
-// wrong-responder block. They are interleaved with handshake timer ticks, re-handshakes, data sends (with path
+// wrong-responder block. The sources that can carry one (V6AddrPorts of the three lighthouse messages, bracketed
+// static_host_map literals) also supply IPv4-mapped IPv6 forms (::ffff:a.b.c.d) of unusable and of usable IPv4
+// addresses; the oracle judges every destination and every offered address as the address the datagram goes to on the
+// wire (c36Norm), whatever form the node holds it in. They are interleaved with handshake timer ticks, re-handshakes, data sends (with path
 // promotion probing on every packet), connection-manager ticks (keep-alive punches to all remotes), punch jobs, tunnel
 // close (P and the static lighthouse) and loss / reordering of the in-flight datagrams.
 //
@@ -96,6 +99,27 @@ var (
 	c36LIn   = c36AP("10.77.0.59:4242")
 )
 
+// c36Mapped is the IPv4-mapped IPv6 form (::ffff:a.b.c.d) of an IPv4 underlay address: what a V6AddrPorts entry of a
+// lighthouse message or a bracketed static_host_map literal can carry. A datagram written to it goes to a.b.c.d (every
+// udp backend unmaps / the dual-stack socket routes it to IPv4), so it denotes the IPv4 address.
+func c36Mapped(a netip.AddrPort) netip.AddrPort {
+	return netip.AddrPortFrom(netip.AddrFrom16(a.Addr().As16()), a.Port())
+}
+
+// c36Norm is the underlay address a destination really denotes on the wire: the oracle judges every destination and every
+// offered address in this form, whatever form the node holds it in.
+func c36Norm(a netip.AddrPort) netip.AddrPort {
+	if !a.Addr().Is4In6() {
+		return a
+	}
+	b := a.Addr().As16()
+	return netip.AddrPortFrom(netip.AddrFrom4([4]byte{b[12], b[13], b[14], b[15]}), a.Port())
+}
+
+func c36IsMapped(a netip.AddrPort) bool { return a.Addr().Is4In6() }
+
+var c36SStatM = c36AP("192.0.2.63:4242") // usable; only in static_host_map, and only written as a mapped literal
+
 func c36Fill4(k int) netip.AddrPort { return c36AP(fmt.Sprintf("192.0.2.%d:4242", 40+k)) }
 func c36Fill6(k int) netip.AddrPort { return c36AP(fmt.Sprintf("[2001:db8::1:%x]:4242", k)) }
 
@@ -107,7 +131,9 @@ var c36Lists = func() map[string]c36AddrList {
 	l := map[string]c36AddrList{
 		"K0": {},
 		"K1": {v4: []netip.AddrPort{c36PUDP}},
-		"K2": {v4: []netip.AddrPort{c36I4, c36D4a, c36D4b, c36R4, c36PHi, c36PAlt, c36PUDP}, v6: []netip.AddrPort{c36I6, c36D6a, c36D6b, c36R6, c36H6, c36G6}},
+		// the V6AddrPorts of the mixed list start with the mapped forms of the unusable IPv4 addresses (ten entries: all are looked at)
+		"K2": {v4: []netip.AddrPort{c36I4, c36D4a, c36D4b, c36R4, c36PHi, c36PAlt, c36PUDP},
+			v6: []netip.AddrPort{c36Mapped(c36I4), c36Mapped(c36D4a), c36Mapped(c36R4), c36Mapped(c36PHi), c36I6, c36D6a, c36D6b, c36R6, c36H6, c36G6}},
 		"K4": {v4: []netip.AddrPort{c36WUDP}},
 		"K6": {v4: []netip.AddrPort{c36WUDP, c36PUDP}}, // the wrong host and the right one: delivery order decides who answers first
 		"KL": {v4: []netip.AddrPort{c36LIn, c36LDen, c36LGood}},
@@ -115,7 +141,11 @@ var c36Lists = func() map[string]c36AddrList {
 	var k3, k5 c36AddrList
 	for k := 0; k < 12; k++ {
 		k3.v4 = append(k3.v4, c36Fill4(k))
-		k3.v6 = append(k3.v6, c36Fill6(k))
+		if k == 1 {
+			k3.v6 = append(k3.v6, c36Mapped(c36Fill4(1))) // a usable IPv4 address in mapped form: kept, and used as IPv4
+		} else {
+			k3.v6 = append(k3.v6, c36Fill6(k))
+		}
 	}
 	// eleven entries: nine fillers, one inside my networks, the real one last (must fall off the end)
 	for k := 0; k < 9; k++ {
@@ -127,7 +157,9 @@ var c36Lists = func() map[string]c36AddrList {
 }()
 
 var c36DnsSet = []netip.AddrPort{c36SDns, c36D4b, c36I4, c36R4, c36PHi, c36D6b, c36I6}
-var c36StaticP = []netip.AddrPort{c36PUDP, c36SStat, c36D4a, c36I4, c36R4, c36PHi, c36D6a, c36I6}
+var c36StaticP = []netip.AddrPort{c36PUDP, c36SStat, c36D4a, c36I4, c36R4, c36PHi, c36D6a, c36I6,
+	// bracketed literals "[::ffff:a.b.c.d]:port": one usable address and three unusable ones
+	c36Mapped(c36SStatM), c36Mapped(c36I4), c36Mapped(c36D4a), c36Mapped(c36R4), c36Mapped(c36PHi)}
 var c36CalcP = []netip.AddrPort{c36SCalc, c36D4b, c36I4c, c36R4, c36PHi}
 
 // ---------------------------------------------------------------------------------------------------------------
@@ -619,11 +651,10 @@ func (w *c36World) peer(i int) *vnode {
 
 // supply records in the model that a source offered addrs for peer (for vacuity: used / refused with which reason).
 func (w *c36World) supply(source string, peer netip.Addr, addrs []netip.AddrPort) {
-	for _, a := range addrs {
-		if w.why[a] == nil {
-			w.why[a] = map[string]bool{}
-		}
-		w.why[a][source] = true
+	for _, wire := range addrs {
+		// the source may write an IPv4 address in its IPv4-mapped IPv6 form: it denotes (and is judged as) the IPv4 address
+		a := c36Norm(wire)
+		w.why2(a, source)
 		r := w.ref.refusal([]netip.Addr{peer}, a.Addr())
 		if r == "" && peer == w.alias && w.ref.refusal(w.pAll, a.Addr()) != "" {
 			r = "denied-range-cert"
@@ -632,6 +663,14 @@ func (w *c36World) supply(source string, peer netip.Addr, addrs []netip.AddrPort
 			w.st.inc("supplied_refused:" + source + ":" + r)
 		} else {
 			w.st.inc("supplied_usable:" + source)
+		}
+		if c36IsMapped(wire) {
+			w.why2(a, source+"/mapped")
+			if r != "" {
+				w.st.inc("supplied_mapped_refused:" + source + ":" + r)
+			} else {
+				w.st.inc("supplied_mapped_usable:" + source)
+			}
 		}
 	}
 }
@@ -711,8 +750,49 @@ const (
 	c36SigAnswer   = "C36: the answer to a handshake the node initiated is accepted from an underlay address that remote_allow_ranges denies for another overlay address of the responder's certificate"
 )
 
-// violP reports a refused address for a peer: the defect-level signature when certNote names one, else the observation-level one.
+// c36SigStaticMapped: found on the unchanged tree by the mapped literals of the static_host_map alphabet
+// (proposed_fixes/C36-static-mapped-literal.md). One signature for the defect; the observation goes into the detail.
+const c36SigStaticMapped = "C36: a static_host_map address written as an IPv4-mapped IPv6 literal ([::ffff:a.b.c.d]:port) is filtered as an IPv6 address, not as the IPv4 address it denotes (an address inside the node's own overlay networks or denied by the remote allow list is held and used / a usable configured address is dropped)"
+
+// staticMappedHeld: the node holds, as an operator-configured entry of static host P (owner = me, or the literal set of
+// its hostname results), the mapped form of IPv4 address a. Raw field comparison, no decoder of the code under test.
+func (w *c36World) staticMappedHeld(a netip.AddrPort) bool {
+	if w.cfg.Src != c36SrcStatic || !a.Addr().Is4() {
+		return false
+	}
+	w.me.lh.RLock()
+	r := w.me.lh.addrMap[w.alias]
+	w.me.lh.RUnlock()
+	if r == nil {
+		return false
+	}
+	b := a.Addr().As4()
+	lo := uint64(0xffff)<<32 | uint64(b[0])<<24 | uint64(b[1])<<16 | uint64(b[2])<<8 | uint64(b[3])
+	r.RLock()
+	defer r.RUnlock()
+	if c := r.cache[c36MeVpn]; c != nil && c.v6 != nil {
+		for _, x := range c.v6.reported {
+			if x != nil && x.Hi == 0 && x.Lo == lo && x.Port == uint32(a.Port()) {
+				return true
+			}
+		}
+	}
+	for _, x := range r.hr.GetAddrs() {
+		if x == c36Mapped(a) {
+			return true
+		}
+	}
+	return false
+}
+
+// violP reports a refused address for a peer: the defect-level signature when one applies, else the observation-level one.
 func (w *c36World) violP(observed, reason string, a netip.AddrPort, extra m) {
+	if reason != "blocked" && w.staticMappedHeld(a) {
+		extra["observed"] = observed + " " + c36ReasonText[reason]
+		extra["held_static_literal"] = c36Mapped(a).String()
+		w.st.viol(c36SigStaticMapped, w.detail(extra))
+		return
+	}
 	if sig := w.certNote(reason, a); sig != "" {
 		extra["observed"] = observed + " " + c36ReasonText[reason]
 		w.st.viol(sig, w.detail(extra))
@@ -810,10 +890,15 @@ func (w *c36World) judgeOut(pkts []vpkt) {
 		case "test", "lighthouse", "control", "close", "garbage":
 			class = "data" // encrypted tunnel traffic: "data" of the statement
 		}
-		who, vpn := w.peerOf(p.To)
+		// the destination is judged as the address the datagram really goes to (::ffff:a.b.c.d goes to a.b.c.d)
+		to := c36Norm(p.To)
+		if to != p.To {
+			w.st.inc("datagrams_written_to_a_mapped_form")
+		}
+		who, vpn := w.peerOf(to)
 		if w.cfg.Multi && vpn != nil && w.isP(vpn) && w.certKnown() {
 			w.st.inc("datagrams_for_P_judged_with_its_certificate_known")
-			if w.ref.refusal(w.pAll, p.To.Addr()) == "" {
+			if w.ref.refusal(w.pAll, to.Addr()) == "" {
 				w.st.inc("datagrams_for_P_usable_for_every_certificate_address")
 			}
 		}
@@ -821,16 +906,16 @@ func (w *c36World) judgeOut(pkts []vpkt) {
 			w.st.viol("C36: datagram sent to the node's own underlay address", w.detail(m{"to": p.To.String(), "kind": kind}))
 			continue
 		}
-		reason := w.refusalFor(vpn, p.To.Addr())
-		if reason == "" && kind == "handshake" && w.blocked[p.To] {
+		reason := w.refusalFor(vpn, to.Addr())
+		if reason == "" && kind == "handshake" && w.blocked[to] {
 			reason = "blocked"
 		}
 		if reason != "" {
-			w.violP(class+" datagram sent to an underlay address", reason, p.To,
-				m{"to": p.To.String(), "kind": kind, "peer": who, "address_supplied_by": w.sources(p.To)})
+			w.violP(class+" datagram sent to an underlay address", reason, to,
+				m{"to": p.To.String(), "goes_to": to.String(), "kind": kind, "peer": who, "address_supplied_by": w.sources(to)})
 			continue
 		}
-		for s := range w.why[p.To] {
+		for s := range w.why[to] {
 			w.st.inc("used:" + s)
 			w.st.inc("used:" + s + ":" + class)
 		}
@@ -916,15 +1001,19 @@ func (w *c36World) judgeState() {
 		if len(vpn) == 0 {
 			continue
 		}
-		for _, a := range r.CopyAddrs(prefs) {
+		for _, held := range r.CopyAddrs(prefs) {
 			w.st.inc("copyaddrs_entries")
+			a := c36Norm(held) // what a datagram to the offered address goes to
+			if a != held {
+				w.st.inc("copyaddrs_entries_in_mapped_form")
+			}
 			reason := w.refusalFor(vpn, a.Addr())
 			if reason == "" && w.isP(vpn) && w.blocked[a] {
 				reason = "blocked"
 			}
 			if reason != "" {
 				w.violP("RemoteList.CopyAddrs offers an underlay address", reason, a,
-					m{"list_of": fmt.Sprint(vpn), "address": a.String(), "address_supplied_by": w.sources(a)})
+					m{"list_of": fmt.Sprint(vpn), "address": held.String(), "denotes": a.String(), "address_supplied_by": w.sources(a)})
 			}
 		}
 		r.RLock()
@@ -965,7 +1054,8 @@ func (w *c36World) judgeState() {
 		// host's certificate as well (the same set unless P has two addresses: the addresses in between may be held or
 		// dropped once the certificate is known — whether they are offered is judged by the CopyAddrs clause above)
 		want, must := map[netip.AddrPort]bool{}, map[netip.AddrPort]bool{}
-		for _, a := range s.addrs {
+		for _, lit := range s.addrs {
+			a := c36Norm(lit) // a mapped literal configures the IPv4 address it denotes
 			if w.ref.refusal([]netip.Addr{s.vpn}, a.Addr()) == "" {
 				want[a] = true
 				if !w.isP([]netip.Addr{s.vpn}) || w.ref.refusal(w.pAll, a.Addr()) == "" {
@@ -980,18 +1070,18 @@ func (w *c36World) judgeState() {
 			if c := r.cache[c36MeVpn]; c != nil {
 				if c.v4 != nil {
 					for _, x := range c.v4.reported {
-						got[protoV4AddrPortToNetAddrPort(x)] = true
+						got[c36Norm(protoV4AddrPortToNetAddrPort(x))] = true
 					}
 				}
 				if c.v6 != nil {
 					for _, x := range c.v6.reported {
-						got[protoV6AddrPortToNetAddrPort(x)] = true
+						got[c36Norm(protoV6AddrPortToNetAddrPort(x))] = true
 					}
 				}
 			}
 			r.RUnlock()
 			for _, a := range r.CopyAddrs(prefs) {
-				offered[a] = true
+				offered[c36Norm(a)] = true
 			}
 		}
 		ok := r != nil
@@ -1012,7 +1102,27 @@ func (w *c36World) judgeState() {
 		if w.afterAnswer {
 			w.st.inc("static_checks_after_lighthouse_answer")
 		}
-		if !ok {
+		onlyMapped := r != nil // every excess address is held as a mapped static literal (and nothing is missing)
+		for a := range got {
+			if !want[a] && !w.staticMappedHeld(a) {
+				onlyMapped = false
+			}
+		}
+		for a := range must {
+			if !got[a] || (!offered[a] && !w.blocked[a]) {
+				plain := false // configured in plain form as well?
+				for _, lit := range s.addrs {
+					plain = plain || lit == a
+				}
+				if plain {
+					onlyMapped = false
+				}
+			}
+		}
+		if !ok && onlyMapped {
+			w.st.viol(c36SigStaticMapped, w.detail(m{"observed": "static host holds unusable addresses " + ctx, "static_host": s.vpn.String(), "configured_usable": fmt.Sprint(c36Keys(want)),
+				"held_for_owner_me": fmt.Sprint(c36Keys(got)), "offered": fmt.Sprint(c36Keys(offered))}))
+		} else if !ok {
 			w.st.viol("C36: a static host does not hold exactly its configured addresses "+ctx,
 				w.detail(m{"static_host": s.vpn.String(), "configured_usable": fmt.Sprint(c36Keys(want)), "configured_usable_for_every_certificate_address": fmt.Sprint(c36Keys(must)), "held_for_owner_me": fmt.Sprint(c36Keys(got)),
 					"offered": fmt.Sprint(c36Keys(offered)), "entry_present": r != nil}))
@@ -1065,13 +1175,14 @@ func (w *c36World) collect() {
 
 // deliverOne hands a datagram to its destination node (claimed source = from). Datagrams to nobody vanish.
 func (w *c36World) deliverOne(p vpkt, from netip.AddrPort) {
-	switch p.To {
+	to := c36Norm(p.To) // the network carries a datagram for ::ffff:a.b.c.d to a.b.c.d
+	switch to {
 	case c36PUDP:
 		w.peer(1)
 	case c36WUDP:
 		w.peer(2)
 	}
-	dst := w.byUDP[p.To]
+	dst := w.byUDP[to]
 	if dst == nil {
 		w.st.inc("datagrams_to_nobody")
 		return
@@ -1795,6 +1906,13 @@ func TestVerifC36(t *testing.T) {
 	c.Assume("an address is 'marked bad' for the handshake in progress only: the block must hold from the wrong host's answer until a handshake with the intended peer completes or no handshake for it is pending (RemoteList documents 'should not be tried again during a handshake'); the close-tunnel notice sent to the wrong host itself is not a handshake for the intended peer")
 	c.Assume("recv_error replies are neither handshakes, punches nor data and are not judged; every other datagram type is")
 	c.Assume("DNS results: the resolver goroutine is not run (it would query the machine's resolver); its effect — storing a new address set in hostnamesResults and running the onUpdate callback — is applied directly")
+	c.Assume("a destination or offered address in IPv4-mapped IPv6 form (::ffff:a.b.c.d) is judged as the IPv4 address a.b.c.d: every udp backend of nebula unmaps it / the dual-stack socket sends it over IPv4. Mapped forms are in the alphabet of the sources that can carry them: V6AddrPorts of HostQueryReply / HostUpdateNotification / HostPunchNotification and bracketed static_host_map literals. Not expressible: calculated_remotes for an IPv4 overlay address (32-bit V4AddrPort), DNS result sets (the resolver goroutine unmaps before storing) and packet source addresses (every udp backend unmaps the source before readOutsidePackets, the level at which the harness delivers)")
+	c.Set("mapped_form_entries_supplied", sum["supplied_mapped_refused:reply:inside"]+sum["supplied_mapped_refused:update:inside"]+sum["supplied_mapped_refused:static:inside"]+sum["supplied_mapped_refused:punch-notification:inside"]+
+		sum["supplied_mapped_refused:reply:denied-global"]+sum["supplied_mapped_refused:update:denied-global"]+sum["supplied_mapped_refused:static:denied-global"]+sum["supplied_mapped_refused:punch-notification:denied-global"]+
+		sum["supplied_mapped_refused:reply:denied-range"]+sum["supplied_mapped_refused:update:denied-range"]+sum["supplied_mapped_refused:static:denied-range"]+sum["supplied_mapped_refused:punch-notification:denied-range"]+
+		sum["supplied_mapped_refused:reply:denied-range-cert"]+sum["supplied_mapped_refused:update:denied-range-cert"]+sum["supplied_mapped_refused:static:denied-range-cert"]+sum["supplied_mapped_refused:punch-notification:denied-range-cert"]+
+		sum["supplied_mapped_usable:reply"]+sum["supplied_mapped_usable:update"]+sum["supplied_mapped_usable:static"]+sum["supplied_mapped_usable:punch-notification"])
+	c.Set("destinations_or_offers_seen_in_mapped_form", sum["datagrams_written_to_a_mapped_form"]+sum["copyaddrs_entries_in_mapped_form"])
 	c.Assume("the destination's peer is identified from disjoint address alphabets (addresses claimed for the lighthouse vs. for P / the wrong host W); P and W share one remote_allow_ranges entry")
 
 	if c.Violations() > 0 {
@@ -1812,6 +1930,16 @@ func TestVerifC36(t *testing.T) {
 	for _, s := range []string{"reply", "update", "static", "calc", "dns", "hs-learned", "roam", "punch-notification"} {
 		for _, r := range []string{"inside", "denied-global", "denied-range", "denied-range-cert"} {
 			need(sum["supplied_refused:"+s+":"+r] > 0, "source "+s+" never supplied an address that is "+r)
+		}
+	}
+	// IPv4-mapped IPv6 forms: every source that can carry one supplied the mapped form of an address unusable for each
+	// reason (all refused: no violation), and the mapped form of a usable address, which was then used (as IPv4)
+	for _, s := range []string{"reply", "update", "static", "punch-notification"} {
+		for _, r := range []string{"inside", "denied-global", "denied-range", "denied-range-cert"} {
+			need(sum["supplied_mapped_refused:"+s+":"+r] > 0, "source "+s+" never supplied the IPv4-mapped form of an address that is "+r)
+		}
+		if s != "punch-notification" || c.Thorough() { // the punch list with a usable mapped entry is in the thorough menu only
+			need(sum["supplied_mapped_usable:"+s] > 0 && sum["used:"+s+"/mapped"] > 0, "source "+s+" never supplied the IPv4-mapped form of a usable address that was then used")
 		}
 	}
 	need(sum["wrong_host_answers"] > 0 && sum["handshake_datagrams_while_blocked"] > 0, "wrong-responder block never in force during a handshake retransmit")
